@@ -170,6 +170,17 @@ def run_cross(ctx, rng, n_cases):
         compare(ctx, "C04:%s:Y" % name, "%s(k=%d, %s) field Y" % (name, k, kw), s2, t2, ("time",), replay)
         tx = m.transform(X=X)
         compare(ctx, "C04:%s:X-only" % name, "%s transform(X=...) alone" % name, s1, tx, ("time",), replay)
+        # normalised scores, both fields together and the second field alone
+        try:
+            sn1, sn2 = m.scores(normalized=True)
+            tn1, tn2 = m.transform(X, Y, normalized=True)
+            compare(ctx, "C04:%s:X:normalized" % name, "%s(k=%d, %s) field X, normalized" % (name, k, kw), sn1, tn1, ("time",), replay)
+            compare(ctx, "C04:%s:Y:normalized" % name, "%s(k=%d, %s) field Y, normalized" % (name, k, kw), sn2, tn2, ("time",), replay)
+            compare(ctx, "C04:%s:Y-only:normalized" % name, "%s transform(Y=..., normalized=True) alone" % name, sn2, m.transform(Y=Y, normalized=True), ("time",), replay)
+        except TypeError:
+            ctx.dist["cross:scores-without-normalized-switch"] += 1
+        except Exception as e:
+            ctx.violation("C04:error:%s:normalized:%s" % (name, C.errkind(e)), "%s normalized scores/transform raised %r" % (name, e), replay)
         if k >= 2:
             Rc = Z.rotator_for(name)
             for power in ([1, 2] if ctx.quick else [1, 2, 3]):
